@@ -280,7 +280,7 @@ Proof.
   pose proof (get_root_path_rows (db s)) as Hr. destruct (get_root_path (db s)) as [p [r|]]; cbn [fst] in Hr; [|fin].
   assert (HI0 : Inv (set_db s p)) by fin.
   set (s0 := set_db s p) in *. clearbody s0. clear HI Hr.
-  destruct (eqb_str r old); [fin|].
+  destruct (eqb_str r old || eqb_str (spelling r) (spelling old)); [fin|].
   repeat (first [ match goal with
                   | HI : Inv ?s |- Inv (fst (move_op c ?s ?a ?b)) => apply move_op_Inv; exact HI
                   | HI : Inv ?s |- context [fs_remove_nl c ?s ?n] =>
